@@ -24,6 +24,7 @@ type SSTableManager struct {
 func (s *SSTableManager) reflectCompactionResult(m *proto.CompactionMetadata) error {
 	// careful about the lock ordering, we always need to acquire the full DB lock first to not corrupt reads
 	s.databaseLock.Lock()
+	verifPoint("compaction.reflect.dbLocked")
 	s.managerLock.Lock()
 	return func() error {
 		defer s.databaseLock.Unlock()
